@@ -130,7 +130,8 @@ class StyleToCSS:
             this should really be implemented as an absolutely position <img>
             with a width and a height
         """
-        sdict['background-image'] = "url('%s')" % self.fillimages[val]
+        if val in self.fillimages: # An image that isn't declared fills nothing
+            sdict['background-image'] = "url('%s')" % self.fillimages[val]
 
     def c_fo(self, ruleset, sdict, rule, val):
         """ XSL formatting attributes """
